@@ -37,7 +37,7 @@ pub fn draw_refgen_cfg(r: &mut Rng, oracles: Oracles, benign: bool) -> RunCfg {
         total_sectors: clusters * u32::from(spc) + 600,
         extra_sectors: if r.chance(1, 3) { r.range(1, 9) as u32 } else { 0 },
         ballast_keep: if r.chance(1, 3) { Some(r.range(2, 30) as u32) } else { None },
-        ballast_mode: 2,
+        ballast_mode: r.below(3) as u8,
         fsinfo_mode: if r.chance(2, 3) { 0 } else { r.range(1, 2) as u8 },
         hint: None,
         status: if r.chance(1, 5) { r.range(1, 3) as u8 } else { 0 },
